@@ -399,6 +399,29 @@ class SimT(SimBase):
         with self.server.session(sid) as s:
             s[key] = val
 
+    def session_block(self, sid, inside):
+        """An application task that enters `with server.session(sid)`, runs
+        inside() in the block and leaves it. -> ticket; .result is 'left' or
+        the type name of what leaving the block raised."""
+        t = Ticket(self, 'app', {'call': 'session-block'})
+        self.tickets.append(t)
+
+        def run():
+            try:
+                try:
+                    with self.server.session(sid) as s:
+                        s['written-in-block'] = 1
+                        inside()
+                    t.result = 'left'
+                except vsched.TaskKilled:
+                    raise
+                except BaseException as e:
+                    t.result = type(e).__name__
+            finally:
+                t.finish()
+        t.task = self.sched.spawn(run, name='app-session-block')
+        return t
+
     # --------------------------------------------------------------- running
     def quiesce(self):
         self.sched.quiesce()
